@@ -57,4 +57,44 @@ theorem numberLoop_ok (w : Nat) :
     · have : target + 1 - n = 0 := by omega
       simp [hn, this]
 
+theorem findIdx?_lt {α : Type} (p : α → Bool) : ∀ (l : List α) (i : Nat), l.findIdx? p = some i → i < l.length := by
+  intro l
+  induction l with
+  | nil => intro i h; simp at h
+  | cons x xs ih =>
+    intro i h
+    rw [List.findIdx?_cons] at h
+    split at h
+    · cases h; simp
+    · cases hx : xs.findIdx? p with
+      | none => simp [hx] at h
+      | some j =>
+        simp [hx] at h
+        have := ih j hx
+        simp only [List.length_cons]
+        omega
+
+/-- every index `get_services_for_ops` returns is a position in the list it searched -/
+theorem servicesForOps_lt {α : Type} (nodes : List α) (skip : Bool) :
+    ∀ (preds : List (α → Bool)) (idxs : List Nat), servicesForOps nodes skip preds = some idxs →
+      upgradeIndexSites nodes.length idxs = .ok () := by
+  intro preds
+  induction preds with
+  | nil => intro idxs h; cases h; rfl
+  | cons p rest ih =>
+    intro idxs h
+    unfold servicesForOps at h
+    cases hr : servicesForOps nodes skip rest with
+    | none => simp [hr] at h
+    | some is =>
+      cases hp : nodes.findIdx? p with
+      | some i =>
+        simp [hr, hp] at h
+        cases h
+        simp [upgradeIndexSites, findIdx?_lt p nodes i hp, ih is hr]
+      | none =>
+        simp [hr, hp] at h
+        obtain ⟨_, rfl⟩ := h
+        exact ih _ hr
+
 end SafeNet.Parsers
